@@ -1,8 +1,8 @@
 import Sentinel.Drv.Common
-import Sentinel.Model.Entry
+import Sentinel.Model.EntryPool
 /-!
-Driver for C01.  `model` = the code-shaped entry lifecycle (`Sentinel.Entry.step`, as-is variant
-`fix = false`), `spec` = the ledger recomputed from the op history (`Sentinel.Entry.info / gauge /
+Driver for C01.  `model` = the code-shaped entry lifecycle with pooled contexts (`Sentinel.EntryPool.step`, pool = LIFO,
+as-is variant `fix = false`; `pooled_refines_pool_free` ties it to `Sentinel.Entry.step`), `spec` = the ledger recomputed from the op history (`Sentinel.Entry.info / gauge /
 contrib / recContrib / nodeExists`), evaluated for `fix = true` (what the property demands) and for
 `fix = false` (the as-is account); where the two differ the observation lies in the region of known
 finding `panic-pass-gauge` and the answer is `?known:panic-pass-gauge:<demanded value>`.
@@ -48,7 +48,7 @@ structure D where
   now : Nat := base
   mono : Bool := true
   h : List TOp := []
-  st : St := init base
+  pst : EntryPool.PSt := EntryPool.init base     -- model: the pooled lifecycle, pool = LIFO (oracle 0)
   iso : List (String × Nat) := []
   hot : List String := []
   drained : Nat := 0
@@ -117,7 +117,7 @@ def showOptInt : Option Int → String
 def defaultChain (d : D) (spec : Bool) (res : String) (batch : Nat) (args : List String) : Chain :=
   let conc : Int :=
     if spec then (if d.fix then d.cT else d.cF).gOf (some res)
-    else match findN d.st.nodes res with
+    else match findN d.pst.nodes res with
       | some n => n.conc
       | none => 0
   { pre := [.node], rules := [defaultRule (d.iso.lookup res) (d.hot.contains res) conc batch args], std := true, recs := [] }
@@ -129,7 +129,7 @@ def apply (d : D) (spec : Bool) (op : Op) : D :=
     { d with cT := d.cT.push true i x, cF := d.cF.push false i x, h := x :: d.h,
              infos := (match infoStep x i with | some j => (op.addr, j) :: d.infos | none => d.infos),
              created := (match nodeNewI i x with | some r => if d.created.contains r then d.created else r :: d.created | none => d.created) }
-  else { d with st := Sentinel.Entry.step d.fix d.st x, h := x :: d.h }
+  else { d with pst := EntryPool.step d.fix d.pst x 0, h := x :: d.h }
 
 /-- the soak's pseudo-random choices (same generator on the Go side) -/
 def lcg (x : Nat) : Nat := (x * 1103515245 + 12345) % 2147483648
@@ -157,7 +157,7 @@ def soakOps (d : D) (spec : Bool) (G N R seed idBase : Nat) : D := Id.run do
   return d
 
 def known (d : D) (spec : Bool) (id : Nat) : Bool :=
-  if spec then (d.infos.lookup id).isSome else (findE d.st.ents id).isSome
+  if spec then (d.infos.lookup id).isSome else (EntryPool.findP d.pst.ents id).isSome
 
 def step (spec : Bool) (d : D) (ts : List String) (_ : String) : D × Option String :=
   match ts with
@@ -178,7 +178,7 @@ def step (spec : Bool) (d : D) (ts : List String) (_ : String) : D × Option Str
         | some ch =>
           let e : EntryOp := { id := id, res := res, inbound := dir = "in", batch := batch, args := args, chain := ch }
           let d' := apply d spec (.entry e)
-          let r := if spec then (d'.infos.lookup id).map (fun i => decide (outcome i.e.chain ≠ .block)) else obsEntered d'.st id
+          let r := if spec then (d'.infos.lookup id).map (fun i => decide (outcome i.e.chain ≠ .block)) else EntryPool.obsEntered d'.pst id
           (d', some (match r with | some true => "pass" | some false => "block" | none => "bad-op"))
       | _, _, _ => (d, some "bad-op")
   | ["trace", id, err] => match id.toNat? with
@@ -199,12 +199,12 @@ def step (spec : Bool) (d : D) (ts : List String) (_ : String) : D × Option Str
         if spec then
           if !d.mono then (d, some "?") else
           (d, some (twoSided d.fix (showOptNat (·.get ev) (specWindow d d.cT k Iv)) (showOptNat (·.get ev) (specWindow d d.cF k Iv))))
-        else (d, some (showOptNat (·.get ev) (obsWindow d.st k Iv d.now)))
+        else (d, some (showOptNat (·.get ev) (EntryPool.obsWindow d.pst k Iv d.now)))
   | ["read", key, what] =>
       let k := parseKey key
       if what = "conc" then
         if spec then (d, some (twoSided d.fix (showOptInt (specConc d d.cT k)) (showOptInt (specConc d d.cF k))))
-        else (d, some (showOptInt (obsConc d.st k)))
+        else (d, some (showOptInt (EntryPool.obsConc d.pst k)))
       else
         let f : Bucket → Nat := if what = "maxconc" then (·.mc) else fun b => max 1 b.minRt
         if what ≠ "maxconc" && what ≠ "minrt" then (d, some "bad-op") else
@@ -212,7 +212,7 @@ def step (spec : Bool) (d : D) (ts : List String) (_ : String) : D × Option Str
         if spec then
           if !d.mono then (d, some "?") else
           (d, some (twoSided d.fix (showOptNat f (specWindow d d.cT k 1000)) (showOptNat f (specWindow d d.cF k 1000))))
-        else (d, some (showOptNat f (obsWindow d.st k 1000 d.now)))
+        else (d, some (showOptNat f (EntryPool.obsWindow d.pst k 1000 d.now)))
   | ["ctx", id, what] => match id.toNat? with
       | none => (d, some "bad-op")
       | some id =>
@@ -225,11 +225,11 @@ def step (spec : Bool) (d : D) (ts : List String) (_ : String) : D × Option Str
             if outcome i.e.chain = .block then (d, some "nil") else
             if i.done then (d, some "exited") else (d, some (sh (i.err, i.e.args)))
         else
-          match findE d.st.ents id with
+          match EntryPool.findP d.pst.ents id with
           | none => (d, some "bad-op")
-          | some c =>
-            if c.blocked then (d, some "nil") else
-            match obsCtx d.st id with
+          | some pe =>
+            if pe.isNil then (d, some "nil") else
+            match EntryPool.obsCtx d.pst id with
             | none => (d, some "exited")
             | some v => (d, some (sh v))
   | ["soak", G, N, R, seed] => match G.toNat?, N.toNat?, R.toNat?, seed.toNat? with
@@ -244,7 +244,7 @@ def step (spec : Bool) (d : D) (ts : List String) (_ : String) : D × Option Str
         let b := showList ((d.cF.log.drop d.drF).map showRec)
         ({ d with drT := d.cT.log.length, drF := d.cF.log.length }, some (twoSided d.fix a b))
       else
-        ({ d with drained := d.st.log.length }, some (showList ((d.st.log.drop d.drained).map showRec)))
+        ({ d with drained := d.pst.log.length }, some (showList ((d.pst.log.drop d.drained).map showRec)))
   | _ => (d, some "bad-op")
 
 def run (mode : String) : IO Unit := do
